@@ -11,7 +11,7 @@ ASSUMPTIONS = [
 ]
 TRUSTED_EXTRA = ["Model/Lexer.v models lexer.rs; Model/Reader.v models the datum reader of parser.rs"]
 
-ALPHABET = "()'#.+-1ae/\";\\ \n"
+ALPHABET = "()'#.+-1ae/\";\\ \n|"
 
 
 def explore(ctx):
@@ -40,7 +40,7 @@ def explore(ctx):
     # (b) random datum trees under random layouts: the value read back must be the tree
     dg = gen.DatumGen(ctx.rng)
     cases = []
-    ntrees = 400 if ctx.quick else 20000
+    ntrees = 1500 if ctx.quick else 40000
     for k in range(ntrees):
         d = dg.datum(ctx.rng.randint(1, 4))
         toks = dg.tokens(d)
@@ -67,7 +67,7 @@ def explore(ctx):
         "traces_validated_against_impl": len(lines) - len(dis) + len(cases) - ndis,
         "disagreements": len(dis) + ndis,
         "tree_layout_failures": wrong,
-        "rule": "(a) every string up to length %d over the 16-character alphabet ( ) ' # . + - 1 a e / \" ; \\ space "
+        "rule": "(a) every string up to length %d over the 17-character alphabet ( ) ' # . + - 1 a e / \" ; \\ | space "
                 "newline%s: token sequence with locations, model vs implementation; random strings through the "
                 "datum reader (hook Parser::verif_next_datum), data with locations compared; (b) %d random datum trees "
                 "(integers incl. i32 bounds, ratios, decimals with exponents, booleans, characters, strings with "
